@@ -2966,12 +2966,19 @@ func (r *Resolver) lookupV4Nss(ctx context.Context, q dns.Question, authservers 
 				errors.Is(err, context.DeadlineExceeded) {
 				return err
 			}
-			if errors.Is(err, middleware.ErrResolutionAttemptLimit) {
+			if errors.Is(err, middleware.ErrResolutionAttemptLimit) ||
+				errors.Is(err, middleware.ErrResolutionShed) {
 				// RFC 9520 keys by question tuple: exhausting one NS
 				// hostname must not prevent trying the delegation's other
-				// hostnames.
+				// hostnames. The same holds for an address lookup shed
+				// under load (global in-flight pool or the host zone's
+				// quota): other hostnames may live elsewhere, but if no
+				// server is found the delegation did not fail — this
+				// request did. Returning the request-local error keeps
+				// "no reachable authority" (a shared RFC 9520 zone
+				// failure) for delegations whose hosts really failed.
 				lastAttemptLimit = err
-				zlog.Debug("Lookup NS ipv4 address reached attempt limit", "query", dnsutil.FormatQuestion(q), "ns", name)
+				zlog.Debug("Lookup NS ipv4 address reached attempt limit or was shed", "query", dnsutil.FormatQuestion(q), "ns", name)
 				continue
 			}
 			zlog.Debug("Lookup NS ipv4 address failed", "query", dnsutil.FormatQuestion(q), "ns", name, "error", err.Error())
